@@ -1356,6 +1356,64 @@ Proof.
       cbn [length]. lia.
 Qed.
 
+(* ------------------------------------------------------------------ RECOVER: the seed is the state *)
+Definition recover_from (sh : shape) (ents : sbuffer) (T : Z) (out : node) : node :=
+  fold_left (fun out td => if fst td <=? T then apply sh (commit sh out) (snd td) else out) ents out.
+Definition last_state_from (h : list (Z * node)) (T : Z) (acc : node) : node :=
+  fold_left (fun acc tl => if fst tl <=? T then snd tl else acc) h acc.
+
+Lemma recover_unfold sh ents T : recover sh ents T = recover_from sh ents T (fresh sh).
+Proof. reflexivity. Qed.
+
+(* entries later than T are not folded (the recording is in time order) *)
+Lemma recover_later sh : forall h s len T out acc, chain sh s len h -> T < MIN_ST + Z.of_nat len ->
+  recover_from sh (entries_of sh h) T out = out /\ last_state_from h T acc = acc.
+Proof.
+  induction h as [|[t live] r IH]; intros s len T out acc Hc HT; [split; reflexivity|].
+  destruct Hc as (Ht & _ & Hc). cbn [entries_of map fst snd recover_from last_state_from fold_left].
+  assert (E : (t <=? T) = false) by lia. rewrite E.
+  apply (IH (commit sh live) _ T out acc Hc). unfold MIN_ST in *. lia.
+Qed.
+
+Lemma recover_gen sh : wf_shape sh -> forall h s len T out acc,
+  good sh s -> commit sh out = s -> commit sh acc = s -> chain sh s len h ->
+  commit sh (recover_from sh (entries_of sh h) T out) = commit sh (last_state_from h T acc).
+Proof.
+  intros Hwf. induction h as [|[t live] r IH]; intros s len T out acc Hg Ho Ha Hc.
+  - cbn. congruence.
+  - pose proof Hc as Hc0. destruct Hc as (Ht & Htk & Hc).
+    cbn [entries_of map fst snd recover_from last_state_from fold_left].
+    destruct (t <=? T) eqn:E.
+    + destruct (recreates_all sh Hwf s live Hg Htk) as (_ & _ & _ & _ & Rc & _ & Rg).
+      rewrite Ho.
+      change (commit sh (recover_from sh (entries_of sh r) T (apply sh s (capture sh live))) = commit sh (last_state_from r T live)).
+      apply (IH (commit sh live) _ T _ live Rg Rc eq_refl Hc).
+    + destruct (recover_later sh r (commit sh live) _ T out acc Hc) as [R1 R2]; [unfold MIN_ST in *; lia|].
+      change (commit sh (recover_from sh (entries_of sh r) T out) = commit sh (last_state_from r T acc)).
+      rewrite R1, R2. congruence.
+Qed.
+
+(* The RECOVER seed as of any time T - the fold of the recorded deltas up to T, each applied at its
+   own evaluation time - is the state the recorded time-series had at T: the value of its last
+   tick at or before T (nothing, if there is none). *)
+Theorem recover_state_gen sh h T : wf_shape sh -> chain sh (fresh sh) 0 h ->
+  commit sh (recover sh (srec_hist sh h []) T) = commit sh (last_state_from h T (fresh sh)).
+Proof.
+  intros Hwf Hc. pose proof (good_fresh sh Hwf) as Hg.
+  rewrite (srec_hist_chain sh Hwf h (fresh sh) 0 [] Hg Hc). cbn [app]. rewrite recover_unfold.
+  apply (recover_gen sh Hwf h (fresh sh) 0%nat T (fresh sh) (fresh sh) Hg (commit_good _ _ Hg) (commit_good _ _ Hg) Hc).
+Qed.
+
+(* a second run that finds the first run's recording in the GlobalState appends to it *)
+Theorem continued_recording_gen sh h1 h2 len2 : wf_shape sh ->
+  chain sh (fresh sh) 0 h1 -> chain sh (fresh sh) len2 h2 ->
+  srec_hist sh h2 (srec_hist sh h1 []) = entries_of sh h1 ++ entries_of sh h2.
+Proof.
+  intros Hwf H1 H2. pose proof (good_fresh sh Hwf) as Hg.
+  rewrite (srec_hist_chain sh Hwf h1 (fresh sh) 0 [] Hg H1). cbn [app].
+  apply (srec_hist_chain sh Hwf h2 (fresh sh) len2 _ Hg H2).
+Qed.
+
 (* ------------------------------------------------------------------ the side conditions are necessary *)
 (* Each statement below is the unconditional version of the round trip, refuted on a concrete
    history; every witness is replayed on the implementation (docs/notes-delta.md). *)
